@@ -8,7 +8,8 @@
 //             | :f id | :w id off $bytes          (id = index of the op that created the block)
 // observation: <guard> <sizeof node> then per op
 //   | kind ncalls (ckind size ok)* amod off req nodekind nodeval digest total reports
-//   and finally  | :end total reports   after every remaining block has been released.
+//   and finally  | :end nlive (id digest)* total reports   : the blocks still live (newest first) with their content, read before the
+//   harness releases them; total and reports after every remaining block has been released.
 #include <new>
 #include <string>
 #include <vector>
@@ -101,7 +102,7 @@ public:
 };
 
 // ---- blocks of the scenario
-struct Block { char* p; size_t n; int fam; bool live; bool det; };   // fam 0 malloc, 1 new, 2 new[]; det: allocated at detector level with an inline record
+struct Block { char* p; size_t n; int fam; bool live; bool det; bool readable; };   // fam 0 malloc, 1 new, 2 new[]; det: allocated at detector level with an inline record
 static TestMemoryAllocator* gMalloc;
 static std::vector<Block> blocks;
 static MemoryLeakDetector* det; static RecFailure rep;
@@ -152,7 +153,7 @@ int main()
         out = hx((unsigned long long)MemoryLeakDetector::memory_corruption_buffer_size ? 1 : 0) + " " + hx(sizeof(MemoryLeakDetectorNode));
         while (!t.end()) {
             std::string op = t.sym();
-            Block nb; nb.p = NULL; nb.n = 0; nb.fam = 0; nb.live = false; nb.det = false;
+            Block nb; nb.p = NULL; nb.n = 0; nb.fam = 0; nb.live = false; nb.det = false; nb.readable = false;
             int kind = K_SKIP; ncalls = 0; int rep0 = rep.count;
             const char* shown = NULL; size_t shownN = 0;     // block whose content is shown
             bool isAlloc = false, skip = false; unsigned char fill = 0xA5; bool doFill = false; size_t fillFrom = 0;
@@ -222,7 +223,7 @@ int main()
                     // usable bytes: touch every requested byte (ASan judges), unless the layout is already known to be unsound
                     size_t usable = (r >= 0 && offv <= req) ? req - offv : 0;
                     if (doFill && nb.n <= usable) memset(nb.p + fillFrom, fill, nb.n - fillFrom);
-                    if (nb.n <= usable) { shown = nb.p; shownN = nb.n; }
+                    if (nb.n <= usable) { shown = nb.p; shownN = nb.n; nb.readable = true; }
                 }
             }
             std::string line = " | " + hx(kind) + " " + hx(ncalls);
@@ -234,8 +235,12 @@ int main()
             blocks.push_back(nb);
         }
         int rep0 = rep.count;
+        size_t nlive = 0; std::string lives;
+        for (size_t i = blocks.size(); i-- > 0; ) if (blocks[i].live) {
+            nlive++; lives += " " + hx(i) + " " + (blocks[i].readable ? digest(blocks[i].p, blocks[i].n) : std::string("$"));
+        }
         for (size_t i = 0; i < blocks.size(); i++) if (blocks[i].live) release(blocks[i]);
-        out += " | :end " + hx(det->totalMemoryLeaks(mem_leak_period_all)) + " " + hx(rep.count - rep0);
+        out += " | :end " + hx(nlive) + lives + " " + hx(det->totalMemoryLeaks(mem_leak_period_all)) + " " + hx(rep.count - rep0);
         delete det;
         puts(out.c_str()); fflush(stdout);
     }
